@@ -161,19 +161,29 @@ def run_c02(tier, seed):
         streams.append(vals)
     # values on implementation thresholds (array pre-allocation cap, buffer sizes), each FOLLOWED by further values: a reader that
     # over-reads or under-reads at such a threshold swallows or loses the neighbour
-    edge = G.boundary_trees(rng) if tier != "quick" else G.boundary_trees(rng, [1024, 1025, 1500], [4096, 16383, 16384, 16385, 65536])
+    edge = G.boundary_trees(rng, null_arrays=True) if tier != "quick" else G.boundary_trees(rng, [1024, 1025, 1500], [4096, 16383, 16384, 16385, 65536], null_arrays=True)
     for t in edge:
         streams.append([t, ('i', b"42"), ('b', b"tail")])
     # long streams on one parser (a connection lives long): many small values of one kind, then something else - state that a
     # value leaves behind in the parser shows up only after many of them
+    import thresholds as T
+    reps = T.extend([17, 40, 130, 1025, 2050] if tier == "quick" else [17, 40, 130, 300, 1023, 1024, 1025, 2050, 4100], 3, 20000, limit=6)
     for kind in (('na',), ('a', []), ('b', None), ('b', b""), ('a', [('a', [('a', [])])]), ('i', b"0")):
-        for nrep in (17, 40, 130):
+        for nrep in reps:
             streams.append([kind] * nrep + [('a', [('b', b"GET"), ('b', b"k")]), ('a', [('a', [('b', b"x")])]), ('s', b"OK")])
     lines, meta = [], []
     kinds = {}
     for vals in streams:
         data = b"".join(G.encode(v) for v in vals)
-        if len(data) > 3000:
+        if len(vals) > 300:
+            # very long streams of tiny values: what matters is the count, a handful of chunkings is enough
+            cks = [("whole", [len(data)]), ("2way", [len(data) // 2, len(data) - len(data) // 2]), ("2way", [len(data) - 7, 7])]
+            sizes, left = [], len(data)
+            while left > 0:
+                k = min(left, rng.choice([64, 512, 4096, 4097]))
+                sizes.append(k); left -= k
+            cks.append(("kway", sizes))
+        elif len(data) > 3000:
             cks = G.chunkings(rng, len(data), dict(two_way_cap=40 if len(data) < 20000 else 12, kway=4))
             # splits a few bytes either side of each value boundary, and one big read that ends inside the following value
             off = 0
